@@ -26,9 +26,56 @@ def run(ctx):
     rule_table(ctx, repo, lg)
     rule_wrapper(ctx, repo)
     rule_RO(ctx, repo, eng, lg)
+    rule_find_and_delete(ctx, repo)
     c04.common_hash_rule(ctx, repo, 'C03.H1')
-    ctx.not_decided += ['FindAndDelete on arbitrary scripts (byte-level loop)', 'the digest value (SHA-256, serialisation bytes: see C01)']
+    ctx.not_decided += ['the bytes FindAndDelete produces on arbitrary scripts (only: every result comes out of the complete token walk)', 'the digest value (SHA-256, serialisation bytes: see C01)']
     ctx.assume('the scratch copy is deep (decided by C09.R6) and its serialisation is the C01 layout')
+
+
+def rule_find_and_delete(ctx, repo):
+    """Must-pass-through: whatever FindAndDelete returns has been through the whole token walk.  A shortcut return
+    (a length comparison, an emptiness test) hands back the script without deleting a pattern that *is* the script, and
+    without the CScriptInvalidError a truncated push raises during the walk."""
+    r = ctx.rule('C03.F1', 'every value FindAndDelete returns is the accumulator of the complete raw_iter() walk over the script', engine='DOM', floor=2)
+    fi = repo.get_function('bitcoin.core.script.FindAndDelete')
+    if fi is None:
+        r.undecided('anchor', 'bitcoin/core/script.py:0', 'FindAndDelete not found')
+        return
+    script = fi.params[0]
+    loops = [n for n in walk_no_nested(fi.node) if isinstance(n, ast.For) and isinstance(n.iter, ast.Call) and norm(n.iter) == '%s.raw_iter()' % script]
+    if len(loops) != 1:
+        r.undecided('walk', fi.site, 'expected one loop over %s.raw_iter(), found %d' % (script, len(loops)))
+        return
+    loop = loops[0]
+    acc = sorted({n.target.id for n in ast.walk(loop) if isinstance(n, ast.AugAssign) and isinstance(n.target, ast.Name)}
+                 | {n.func.value.id for n in ast.walk(loop) if isinstance(n, ast.Call) and isinstance(n.func, ast.Attribute)
+                    and n.func.attr in ('append', 'extend') and isinstance(n.func.value, ast.Name)})
+
+    def gen(stmt, facts):
+        if stmt is loop:
+            return facts  # facts at loop entry; 'walked' is added after the loop by the wrapper below
+        return facts
+    # run the must-analysis on a body where the loop is followed by a marker: emulate by checking position
+    mf = flow.run_must(fi.node, gen=lambda st, f: f)
+    # statements are visited in order; a return is "after the walk" iff the loop statement precedes it on every path:
+    # since the loop is a top-level statement of the function, that is: the return is not nested before/inside it.
+    top = list(fi.node.body)
+    if loop not in top:
+        r.undecided('walk', common.site_of(fi, loop), 'the token walk is nested inside another statement')
+        return
+    k = top.index(loop)
+    early = [n for st in top[:k + 1] for n in walk_no_nested(st) if isinstance(n, ast.Return)]
+    r.check(not early, 'no-shortcut', common.site_of(fi, early[0]) if early else fi.site, 'no return before the end of the token walk',
+            'FindAndDelete returns `%s` before the token walk has finished: the pattern is not deleted on that path (and a malformed script no longer raises)'
+            % (norm(early[0].value) if early else ''))
+    late = [n for st in top[k + 1:] for n in walk_no_nested(st) if isinstance(n, ast.Return)]
+    if not late:
+        r.undecided('returns-accumulator', fi.site, 'no return after the walk')
+        return
+    for i, n in enumerate(late):
+        names = {x.id for x in ast.walk(n.value) if isinstance(x, ast.Name)} if n.value is not None else set()
+        r.check(bool(names & set(acc)) and script not in names, 'returns-accumulator:%d' % i, common.site_of(fi, n),
+                'returns the accumulator (%s)' % ', '.join(acc), 'FindAndDelete returns `%s`, which is not built from the walk\'s accumulator (%s)' % (norm(n.value), ', '.join(acc)))
 
 
 def rule_table(ctx, repo, lg):
